@@ -65,6 +65,7 @@ type StrV struct {
 	s     string
 	id    *Term   // BV32 (nil when bytes != nil)
 	bytes []*Term // short string of symbolic bytes (from string([]byte))
+	lenT  *Term   // length when known (64-bit), also for merged concrete strings
 }
 
 type StructV struct {
@@ -123,7 +124,9 @@ func internStr(s string) *Term {
 	return BVConst(int64(id), 32)
 }
 
-func ConcStr(s string) *StrV { return &StrV{conc: true, s: s, id: internStr(s)} }
+func ConcStr(s string) *StrV {
+	return &StrV{conc: true, s: s, id: internStr(s), lenT: BVConst(int64(len(s)), 64)}
+}
 
 // ---------- pointers
 
@@ -275,7 +278,11 @@ func IteV(c *Term, a, b Value) Value {
 		if x.bytes != nil || y.bytes != nil {
 			panic(unsupported("merge of byte-strings"))
 		}
-		return &StrV{id: Ite(c, x.id, y.id)}
+		r := &StrV{id: Ite(c, x.id, y.id)}
+		if x.lenT != nil && y.lenT != nil {
+			r.lenT = Ite(c, x.lenT, y.lenT)
+		}
+		return r
 	case *StructV:
 		y := b.(*StructV)
 		if x == y {
